@@ -8,14 +8,14 @@ import (
 )
 
 var (
-	P, _  = new(big.Int).SetString("57896044618658097711785492504343953926634992332820282019728792003956564819949", 10)
-	L, _  = new(big.Int).SetString("7237005577332262213973186563042994240857116359379907606001950938285454250989", 10)
-	D     *big.Int
+	P, _   = new(big.Int).SetString("57896044618658097711785492504343953926634992332820282019728792003956564819949", 10)
+	L, _   = new(big.Int).SetString("7237005577332262213973186563042994240857116359379907606001950938285454250989", 10)
+	D      *big.Int
 	SqrtM1 *big.Int
-	B     Point
-	T8    Point // a point of order exactly 8
-	one   = big.NewInt(1)
-	two   = big.NewInt(2)
+	B      Point
+	T8     Point // a point of order exactly 8
+	one    = big.NewInt(1)
+	two    = big.NewInt(2)
 )
 
 type Point struct{ X, Y *big.Int }
